@@ -53,6 +53,9 @@ type c08Case struct {
 	Gets     []jget     `json:"gets"`
 	RootA    [2]uint64  `json:"roota"`
 	RootB    [2]uint64  `json:"rootb"`
+	Mid      int        `json:"mid"`    // history A: a listing of prefix MidP is taken after the first Mid operations
+	MidP     string     `json:"midp"`
+	OutMid   jlisting   `json:"outmid"`
 }
 
 func parseListing(b []byte, err error) jlisting {
@@ -233,13 +236,21 @@ func init() {
 			}
 			ta := store.VerifNewTree(c.Depth, c.Bucket, c.Height)
 			tb := store.VerifNewTree(c.Depth, c.Bucket, c.Height)
-			applyOps(ta, c.OpsA)
-			applyOps(tb, c.OpsB)
 			// prefixes: bucket prefix, every length along a few keys, some absent ones
 			bp := ""
 			if c.Depth > 0 {
 				bp = fmt.Sprintf("%0*x", c.Depth, c.Bucket)
 			}
+			// history A is interrupted by a listing (all nodes become "updated"), as replica sync does between writes
+			c.Mid = 1 + r.Intn(len(c.OpsA))
+			c.MidP = bp
+			if r.Chance(30) {
+				c.MidP = fmt.Sprintf("%016x", final[r.Intn(len(final))].h)[:c.Depth+r.Intn(c.Height)]
+			}
+			applyOps(ta, c.OpsA[:c.Mid])
+			c.OutMid = parseListing(ta.ListDir(c.MidP))
+			applyOps(ta, c.OpsA[c.Mid:])
+			applyOps(tb, c.OpsB)
 			seen := map[string]bool{}
 			addp := func(p string) {
 				if !seen[p] && len(p) >= c.Depth && len(p) <= 16 {
